@@ -400,3 +400,23 @@ def for_each_form(body, iter_patterns, roles=None):
         calls = [q.shape(cl.expr_of_call(t2)).replace("^", "") for b2, t2 in cl.calls() if t2.get("resolved_local")]
         return bi, cl, calls
     return None
+
+
+def mut_borrow_users(body, local):
+    """Who receives a `&mut local`: [(block, callee)] for every mutable borrow of the whole local that is handed to a
+    call as an argument; a mutable borrow that goes anywhere else is reported with callee '?'."""
+    out = []
+    for bi, si, s, it in body.locations():
+        if it or s["k"] != "assign" or s["rv"]["k"] != "ref" or not s["rv"].get("mut"):
+            continue
+        pl = s["rv"]["place"]
+        if pl["l"] != local or pl["p"]:
+            continue
+        t = s["place"]["l"]
+        users = []
+        for bj, term in body.calls():
+            for a in term.get("args", []):
+                if a.get("k") in ("move", "copy") and a["place"]["l"] == t and not a["place"]["p"]:
+                    users.append((bj, q.nice(term.get("resolved") or term.get("callee"))))
+        out.extend(users or [(bi, "?")])
+    return out
